@@ -64,18 +64,18 @@ func (fr *Frame) doCall(ins *ssa.Call, c *ssa.CallCommon, st *State) []Val {
 	if fv.fn != nil {
 		return fr.callStatic(ins, fv.fn, nil, args, st)
 	}
+	if ld, ok := c.Value.(*ssa.UnOp); ok {
+		if g, ok := ld.X.(*ssa.Global); ok && isLogSink(g) {
+			ex.vc.note("call through package variable %s.%s treated as an effect-free logging sink", g.Pkg.Pkg.Name(), g.Name())
+			return fr.freshResults(c.Signature(), st)
+		}
+	}
 	// call through a function value: known closures are inlined under the condition that the value is theirs
 	if fv.t != "" && len(ex.closures) > 0 {
 		if cl, ok := ex.closures[fv.t]; ok {
 			return fr.callStatic(ins, cl.fn, cl.bindings, args, st)
 		}
 		return fr.callDynamic(ins, c, fv, args, st)
-	}
-	if ld, ok := c.Value.(*ssa.UnOp); ok {
-		if g, ok := ld.X.(*ssa.Global); ok && isLogSink(g) {
-			ex.vc.note("call through package variable %s.%s treated as an effect-free logging sink", g.Pkg.Pkg.Name(), g.Name())
-			return fr.freshResults(c.Signature(), st)
-		}
 	}
 	return fr.callCallback(ins, c, fv, args, st)
 }
@@ -295,7 +295,7 @@ func (fr *Frame) applyExtern(ins *ssa.Call, fc *FuncContract, fo *types.Func, re
 			return TVal{t: fr.materialize(st, v.place), typ: v.typ}
 		}
 		if v.fn != nil || v.closure != nil {
-			return TVal{t: vc.fresh("fnarg", "Int"), typ: v.typ}
+			return TVal{t: fnArgTerm(vc, v), typ: v.typ}
 		}
 		return tv(v, ex)
 	}
@@ -470,7 +470,7 @@ func (fr *Frame) callContract(ins *ssa.Call, fn *ssa.Function, fc *FuncContract,
 			continue
 		}
 		if a.fn != nil || a.closure != nil {
-			vars[p.Name()] = TVal{t: vc.fresh("fnarg", "Int"), typ: p.Type()}
+			vars[p.Name()] = TVal{t: fnArgTerm(vc, a), typ: p.Type()}
 			continue
 		}
 		vars[p.Name()] = tv(a, ex)
@@ -654,3 +654,11 @@ func (fr *Frame) callDynamic(ins *ssa.Call, c *ssa.CallCommon, fv Val, args []Va
 }
 
 func sortStrings(s []string) { sort.Strings(s) }
+
+// fnArgTerm: a function or closure value passed to a callee under contract: its identity is opaque to contracts,
+// but it is not nil.
+func fnArgTerm(vc *VC, v Val) string {
+	f := vc.fresh("fnarg", "Int")
+	vc.assume("true", not(eq(f, "0")))
+	return f
+}
